@@ -1,6 +1,7 @@
 package checks
 
 import (
+	"time"
 	"fmt"
 
 	at "github.com/DanielSvub/anytype"
@@ -45,6 +46,8 @@ const (
 	oListAdd
 	oObserve
 )
+
+type c06Named string
 
 type oop struct {
 	K      uint8
@@ -328,7 +331,20 @@ func c06Apply(cfg c06Cfg) func(w W, d oop) (string, string) {
 			// with the unchanged model). Only for a bad KEY met in the middle of the list is the statement silent.
 			return panickingSet(func(o at.Object) { o.Set(key(d.K1), rv, key(d.K2)) }, "", nil, nil, false)
 		case oSetBadKey:
-			return panickingSet(func(o at.Object) { o.Set(7, rv) }, "", nil, nil, false)
+			// every kind of non-string key must be rejected: numbers, bool, nil, byte slices, named string types, values
+			// with a String() method (time.Duration, errors - and the library's own Lists and Objects)
+			m := w.Regs[d.R].(*model.O)
+			o := w.RO(m)
+			for _, bad := range []interface{}{7, 2.5, true, nil, []byte("k"), c06Named("k"), time.Duration(5), fmt.Errorf("k"), at.NewList(1, 2), at.NewObject("k", "v"), o, []string{"k"}, 'k'} {
+				bad := bad
+				if pn, _ := try(func() { o.Set(bad, 1) }); !pn {
+					return fmt.Sprintf("Set(%T(%v), 1) on %s did not panic", bad, bad, model.Show(m)), "panic-domain/bad-key"
+				}
+				if pn, _ := try(func() { at.NewObject(bad, 1) }); !pn {
+					return fmt.Sprintf("NewObject(%T(%v), 1) did not panic", bad, bad), "panic-domain/bad-key"
+				}
+			}
+			return "", ""
 		case oSetBadKeyAfterPair:
 			return panickingSet(func(o at.Object) { o.Set(key(d.K1), rv, 7, rv2) }, key(d.K1), mv, rv, true)
 		case oUnset0:
